@@ -21,7 +21,7 @@ for sub in ("lean/PaletteModel", "lean/PaletteModel/Color", "lean/PaletteProofs"
     for f in sorted(os.listdir(sd)):
         sp, dp = os.path.join(sd, f), os.path.join(dst, sub, f)
         if not os.path.isfile(sp): continue
-        if f in ("extract.py", "main.rs", "props.json", "check", "gen_manifest.py", "hooks.json") : continue
+        if f in ("extract.py", "main.rs", "registry.rs.txt", "props.json", "check", "gen_manifest.py", "hooks.json") : continue
         if not os.path.exists(dp):
             os.makedirs(os.path.dirname(dp), exist_ok=True); shutil.copy(sp, dp); print("added", os.path.join(sub, f))
         elif rd(sp) != rd(dp):
@@ -64,7 +64,7 @@ for arm in arms_a:
         b = b.replace('  | _ => .bad s!"unknown op {op}"', arm + '\n  | _ => .bad s!"unknown op {op}"'); print("Driver.lean:", arm.strip()[:100])
 wr(os.path.join(dst, "lean/Driver.lean"), b)
 # 4. main.rs
-a, b = rd(os.path.join(src, "harness/src/main.rs")), rd(os.path.join(dst, "harness/src/main.rs"))
+a, b = rd(os.path.join(src, "harness/src/main.rs")), rd(os.path.join(dst, "harness/src/registry.rs.txt"))
 for mod in re.findall(r"^mod \w+;$", a, re.M):
     if mod not in b:
         last = list(re.finditer(r"^mod \w+;$", b, re.M))[-1]
@@ -72,7 +72,8 @@ for mod in re.findall(r"^mod \w+;$", a, re.M):
 for arm in re.findall(r'^        "C\d+\w*" => .*$', a, re.M):
     if arm not in b:
         b = b.replace('        _ => { eprintln!("unknown property', arm + '\n        _ => { eprintln!("unknown property'); print("main.rs:", arm.strip())
-wr(os.path.join(dst, "harness/src/main.rs"), b)
+wr(os.path.join(dst, "harness/src/registry.rs.txt"), b)
+os.system("python3 /verif/tools/gen_bins.py > /dev/null")
 # 5. props.json
 pa, pb = json.load(open(os.path.join(src, "spec/props.json"))), json.load(open(os.path.join(dst, "spec/props.json")))
 if pid in pa:
